@@ -88,6 +88,21 @@ def write_cfg(path, spec="Spec", constants=None, invariants=(), properties=(), p
 def tlc_mc(module, cfg, tag, workers=8, timeout=1800, xmx="8g", expect_violation=False, extra=()):
     """Run TLC in model-checking mode.  Returns dict(states, distinct, depth, ok, out).
     A property violation of the MODEL is a specification error -> ToolError unless expect_violation."""
+    # Model checking concerns the specification only, not the tree under test.  The registered checks always run it; the private
+    # lanes used for regressions over seeded changes and for refactor controls (bin/lane) may reuse the result of an identical run
+    # (same module, same configuration, same specification files) recorded by a registered run: VERIF_MC_CACHE names the directory.
+    import hashlib
+    h = hashlib.sha1()
+    h.update(module.encode()); h.update(open(cfg, "rb").read()); h.update(("x" if expect_violation else "").encode())
+    for fn in sorted(os.listdir(SPEC)):
+        if fn.endswith(".tla"):
+            h.update(open(os.path.join(SPEC, fn), "rb").read())
+    ckey = h.hexdigest()
+    cdir = os.environ.get("VERIF_MC_CACHE")
+    if cdir and os.path.exists(os.path.join(cdir, ckey + ".json")):
+        res = json.load(open(os.path.join(cdir, ckey + ".json")))
+        res["reused"] = True
+        return res
     meta = workdir("tlc_" + tag)
     cmd = _java(xmx=xmx, xss="512m") + ["-workers", str(workers), "-maxSetSize", "50000000",
                                        "-metadir", meta, "-cleanup", "-noGenerateSpecTE", "-coverage", "1",
@@ -112,6 +127,12 @@ def tlc_mc(module, cfg, tag, workers=8, timeout=1800, xmx="8g", expect_violation
     res["coverage"] = cov
     if not ok and not expect_violation:
         raise ToolError("model checking of %s failed (specification error):\n%s" % (module, out[-3000:]))
+    if ok:
+        try:
+            os.makedirs(os.path.join(WORK, "mc_cache"), exist_ok=True)
+            json.dump(dict(res, out=res["out"][-4000:]), open(os.path.join(WORK, "mc_cache", ckey + ".json"), "w"))
+        except OSError:
+            pass
     return res
 
 
